@@ -77,6 +77,9 @@ def isBitwise : BinOp → Bool
   | .bitAnd | .bitOr | .bitXor => true
   | _ => false
 
+/-- a name that is also the prefix letter of a float / decimal literal: `f.5`, `d.5` would lex as literals -/
+def isLitPrefixName (n : Str) : Bool := n == ['f'] || n == ['d']
+
 /-- the `Operand` wrapper: these operands are parenthesised -/
 def needsParens : Expr → Bool
   | .un .not _ => true
@@ -84,6 +87,8 @@ def needsParens : Expr → Bool
   | .bin op _ _ => isBitwise op
   | .lit (.float _) => true
   | .lit (.dec _) => true
+  | .ref n => isLitPrefixName n
+  | .sym n => isLitPrefixName n
   | _ => false
 
 def paren (s : Str) : Str := '(' :: s ++ [')']
